@@ -276,7 +276,29 @@ func mutateText(t *rapid.T, s string) (string, string) {
 		re := regexp.MustCompile(regexp.QuoteMeta(k) + `("[^"]*"|\d+|\[[^\]]*\]|\{[^}]*\})`)
 		return re.ReplaceAllString(s, k+"null"), kind
 	case "escape":
-		return replaceNth(s, pick([]string{`"pUSD"`, `"version"`, `"PEG"`, `"amount"`}), pick([]string{`"pUSD"`, `"version"`, `"PEG"`, `"amount"`})), kind
+		// JSON unicode escapes inside a ticker or a key: the same string to a lenient decoder, not canonical.
+		// (built from pieces: a literal backslash-u must never appear in this source file)
+		bs := string(rune(92)) + "u00"
+		esc := map[string]string{
+			`"pUSD"`:       `"` + bs + `70USD"`,
+			`"PEG"`:        `"` + bs + `50EG"`,
+			`"pXBT"`:       `"pX` + bs + `42T"`,
+			`"version"`:    `"` + bs + `76ersion"`,
+			`"amount"`:     `"` + bs + `61mount"`,
+			`"type"`:       `"typ` + bs + `65"`,
+			`"conversion"`: `"` + bs + `63onversion"`,
+		}
+		var present []string
+		for _, k := range []string{`"pUSD"`, `"PEG"`, `"pXBT"`, `"version"`, `"amount"`, `"type"`, `"conversion"`, `"FA`} {
+			if strings.Contains(s, k) {
+				present = append(present, k)
+			}
+		}
+		if len(present) == 0 {
+			return s, kind
+		}
+		k := pick(present)
+		return replaceNth(s, k, esc[k]), kind
 	case "trailing":
 		return s + pick([]string{" ", "x", "{}", ",", "\x00"}), kind
 	case "reorder":
